@@ -2,9 +2,6 @@ package client
 
 import (
 	"sync"
-	"time"
-
-	"github.com/smallnest/rpcx/log"
 )
 
 // MultipleServersDiscovery is a multiple servers service discovery.
@@ -73,22 +70,33 @@ func (d *MultipleServersDiscovery) Update(pairs []*KVPair) {
 	defer d.mu.Unlock()
 
 	for _, ch := range d.chans {
-		ch := ch
-		go func() {
-			defer func() {
-				recover()
-			}()
-			select {
-			case ch <- pairs:
-			case <-time.After(time.Minute):
-				log.Warn("chan is full and new change has been dropped")
-			}
-		}()
+		notifyWatcher(ch, pairs)
 	}
 
 	d.pairsMu.Lock()
 	d.pairs = pairs
 	d.pairsMu.Unlock()
+}
+
+// notifyWatcher delivers a snapshot to a watcher in publication order and without blocking.
+// The caller serialises calls for one channel (it holds the discovery's mutex).  Every snapshot
+// is the complete server set, so when the channel is full the oldest queued snapshot is
+// dropped: only the newest one matters.
+func notifyWatcher(ch chan []*KVPair, pairs []*KVPair) {
+	defer func() {
+		recover() // the watcher may have closed its channel
+	}()
+	for {
+		select {
+		case ch <- pairs:
+			return
+		default:
+		}
+		select {
+		case <-ch:
+		default:
+		}
+	}
 }
 
 func (d *MultipleServersDiscovery) Close() {
